@@ -624,12 +624,39 @@ def holders_for(ty):
             ('setof', univ.SetOf(componentType=ty), 'pos')]
 
 
-def check_foreign_assignment(rep, fam, types, exprs, i, j, v, case):
-    """vobj: a value object of ancestor type i holding v, which descendant type j rejects"""
+def foreign_sources(fam, types, i, j):
+    """types whose value objects may hold a value that type j rejects: the ancestor, the unconstrained base type,
+    the complement of type j (ALL EXCEPT its constraint), a sibling that re-derives the ancestor with the complement,
+    a union of type j's constraint with 'anything'"""
+    out = [('ancestor', types[i])]
+    base = type(types[0])
     try:
-        vobj = value_object(fam, types[i], v)
+        out.append(('base', base()))
     except Exception:  # noqa
-        return
+        pass
+    spec_j = types[j].subtypeSpec
+    for nm, mk in (('complement', lambda: base().subtype(subtypeSpec=C.ConstraintsExclusion(spec_j))),
+                   ('complement-of-ancestor', lambda: types[i].subtype(subtypeSpec=C.ConstraintsExclusion(spec_j))),
+                   ('union-with-all', lambda: base().subtype(subtypeSpec=C.ConstraintsUnion(spec_j, C.ConstraintsIntersection()))),
+                   ('exclusion-kwarg', lambda: base(subtypeSpec=C.ConstraintsExclusion(spec_j)))):
+        try:
+            out.append((nm, mk()))
+        except Exception:  # noqa
+            pass
+    return out
+
+
+def check_foreign_assignment(rep, fam, types, exprs, i, j, v, case):
+    """value objects of other types holding v, which type j rejects, must not be stored where type j is expected"""
+    for src_name, src in foreign_sources(fam, types, i, j):
+        try:
+            vobj = value_object(fam, src, v)
+        except Exception:  # noqa
+            continue
+        _check_foreign_assignment(rep, fam, types, exprs, i, j, v, dict(case, source=src_name), vobj)
+
+
+def _check_foreign_assignment(rep, fam, types, exprs, i, j, v, case, vobj):
     for name, holder, how in holders_for(types[j]):
         rep.count('foreign-assignments')
         apis = (['byname', 'setitem', 'bypos'] if how == 'name' else ['bypos', 'append'])
@@ -654,9 +681,9 @@ def check_foreign_assignment(rep, fam, types, exprs, i, j, v, case):
                 rep.fail('foreign-assign-leak-' + type(ex).__name__, '%s via %s raised %s' % (name, api, ex),
                          dict(case, i=i, j=j, holder=name, api=api, value=val_sexp(v)))
                 continue
-            rep.fail('assignment-bypasses-constraint:' + name,
-                     'a value object of ancestor type %d holding %s was stored via %s where descendant type %d (which '
-                     'rejects that value) is expected' % (i, val_sexp(v), api, j),
+            rep.fail('assignment-bypasses-constraint:%s:%s' % (case.get('source'), name),
+                     'a value object (%s type) holding %s was stored via %s where type %d (which '
+                     'rejects that value) is expected' % (case.get('source'), val_sexp(v), api, j),
                      dict(case, i=i, j=j, holder=name, api=api, value=val_sexp(v)))
 
 
